@@ -82,6 +82,31 @@ def run(res, rng, tier, model_ok, replay=None):
             line = "loadseq %s %s %s %s" % (sarg, hdr.hex(), body.hex(), ops_str(h))
             cases.append({"line": line, "expect": expected_history(h, content, range(4)),
                           "key": (f, ops_str(h)) if is_nontrivial(h) else None, "klass": "generated-vcd"})
+    # the same load histories on a store that holds several blocks (the file is parsed by 2..5 parser threads): signals
+    # with many redundant writes, so that a block often starts with the value the previous block ended with
+    for f in range(2 if tier == "quick" else 12):
+        sigs = [gen.Sig("b", 1), gen.Sig("b", rng.choice([2, 8])), gen.Sig("r"), gen.Sig("s")]
+        pool = {0: ["0", "1"], 1: ["0" * sigs[1].width, "1" * sigs[1].width], 2: ["1.5", "2.5"], 3: ["a", "b"]}
+        steps = []
+        for k in range(rng.randint(30, 60)):
+            steps.append((k * 3, [(si, rng.choice(pool[si])) for si in range(4) if rng.random() < 0.8]))
+        idents, kind, idx, nuniq = gen.assign_ids(rng, 4, "dense")
+        hdr = gen.header_text(rng, sigs, idents, plain=True)
+        body = gen.body_text(rng, sigs, idents, steps, False, "plain")
+        sarg = gen.sigs_arg(sigs, kind, idx, nuniq, idents)
+        table, out = gen.expected_obs(sigs, steps, False)
+        content = {}
+        for si in range(4):
+            lst = out[si]
+            content[si] = ",".join("%x:%s:%s" % e for e in lst) if lst else "-"
+        all_ops = [(k, ids) for k in "LMU" for ids in ID_LISTS]
+        for threads in (2, 3, 5):
+            min_chunk = max(8, len(body) // threads - 1)
+            for _ in range(25 if tier == "quick" else 150):
+                h = [rng.choice(all_ops) for _ in range(rng.randint(1, 5))]
+                line = "loadseqm %d %d %s %s %s %s" % (threads, min_chunk, sarg, hdr.hex(), body.hex(), ops_str(h))
+                cases.append({"line": line, "expect": expected_history(h, content, range(4)), "nomodel": True,
+                              "key": ("multi-block", f, threads, ops_str(h)) if is_nontrivial(h) else None, "klass": "generated-vcd-multi-block"})
     vcdfam.run_both(res, cases, "c07", model_ok)
     # corpus files: FST (file backed), GHW (wavemem + slices), VCD
     files = ["/repo/wellen/inputs/ghdl/wellen_issue_12.ghw", "/repo/wellen/inputs/ghdl/oscar/test.ghw",
